@@ -73,6 +73,8 @@ class Controller:
         self.foreign = []          # jobs whose dependencychanged ran outside the scheduler loop thread
         self.loop_tid = None
         self.helper_exc_delivered = True
+        self.prebuilt = {}         # index -> (cfg, init) built before its turn (given unsubmitted to an earlier job)
+        self.copied = set()        # ids of the configurations on which copy_dependencies was called
 
     # ---------------------------------------------------------------- installation
     def install(self):
@@ -262,11 +264,34 @@ def build_config(ctl, w, j, values, objs):
     cls = getattr(V, spec["cls"])
     kw = dict(name=spec["name"])
     items, table, pre, init, explicit, frm = [], {}, [], [], [], []
+    copyfrom = None
+    held = [(k, (objs[k] if how.endswith("_obj") else values[k])) for (k, how) in spec["embed"] if how.split("_obj")[0] == "held"]
     for n, (k, how) in enumerate(spec["embed"]):
         use_obj = how.endswith("_obj")
         how = how[:-4] if use_obj else how
+        if how == "late":
+            # a task that is NOT submitted yet (it will be, at its turn), given through Param[Optional[Config]]
+            if ctl.prebuilt.get(k) is None:
+                ctl.prebuilt[k] = build_config(ctl, w, k, values, objs)
+            kw["child"] = ctl.prebuilt[k][0]
+            continue
         v = objs[k] if use_obj else values[k]
-        if how == "direct":
+        if how == "held":
+            continue                    # (placed by a `copydep_in` / `out_holder` entry)
+        if how == "copydep":
+            copyfrom = v                # cfg.copy_dependencies(v) on the task that is submitted
+        elif how == "copydep_in":
+            # a nested configuration that holds the next `held` value and takes the dependencies of v
+            h = V.Node(x=n, child=held.pop(0)[1] if held else None)
+            h.copy_dependencies(v)
+            ctl.copied.add(id(h))
+            items.append(h)
+        elif how == "out_holder":
+            # the (unsealed) output of task k completed by the caller with the next `held` value
+            if held:
+                v.extra = held.pop(0)[1]
+            items.append(v)
+        elif how == "direct":
             kw["child"] = v
         elif how == "falsy":
             kw["bag"] = V.Bag(names=[], child=v)      # a configuration whose truth value is False
@@ -299,6 +324,9 @@ def build_config(ctl, w, j, values, objs):
         cfg.add_pretasks(*pre)
     if frm:
         cfg.add_pretasks_from(*frm)
+    if copyfrom is not None:
+        cfg.copy_dependencies(copyfrom)
+        ctl.copied.add(id(cfg))
     for up in explicit:
         cfg.add_dependencies(up.__xpm__.dependency())
     return cfg, init
@@ -341,7 +369,8 @@ def dump_heap(ctl, root, init_tasks):
         init = [nid(x) for x in (init_tasks if o is root else xi.init_tasks)]
         task = None if xi.task is None else nid(xi.task)
         jobof = None if xi.job is None else ctl.jobidx.get(id(xi.job), -1)
-        nodes[i] = dict(fields=fields, pre=pre, init=init, task=task, jobof=jobof, loaded=bool(xi.loaded), falsy=not bool(o))
+        nodes[i] = dict(fields=fields, pre=pre, init=init, task=task, jobof=jobof, loaded=bool(xi.loaded), falsy=not bool(o),
+                        copied=(id(o) in ctl.copied and xi.task is not None and xi.task is not o))
         i += 1
     return nodes
 
@@ -402,6 +431,7 @@ def run_workload(w):
         xp.__enter__()
         ctl.loop = xp.central.loop
         ctl.lost, ctl.foreign, ctl.loop_tid = [], [], None
+        ctl.prebuilt, ctl.copied = {}, set()
         ctl.loop.call_soon_threadsafe(lambda: setattr(ctl, "loop_tid", threading.get_ident()))
 
         class RaisingListener:
@@ -456,7 +486,13 @@ def run_workload(w):
                 trace["skipped"][j] = gone[0]
                 ctl.jobs[j] = None
                 return False
-            cfg, init = build_config(ctl, w, j, values, objs)
+            try:
+                cfg, init = ctl.prebuilt.pop(j) if ctl.prebuilt.get(j) is not None else build_config(ctl, w, j, values, objs)
+            except ValueError as e:
+                # the configuration itself is refused (e.g. a task that is not submitted given as a value)
+                trace["refused"][j] = "at construction: " + str(e)[:200]
+                ctl.jobs[j] = None
+                return False
             root = spec.get("copy_of")
             if spec.get("reuse") and root is not None and depobjs.get(root) is not None:
                 mine = depobjs[root]          # the Dependency objects of the first submission, used again
@@ -521,6 +557,8 @@ def run_workload(w):
             if sched_in is not None and si < len(sched_in):
                 act = sched_in[si]
                 si += 1
+                if act[0] == "refused":
+                    act = ["submit", act[1]]          # (a recorded schedule: the submission that was refused)
                 # a directed schedule is best effort: steps that are not enabled here are skipped
                 if act[0] == "deliver":
                     pend = {(p["job"], p["op"]) for p in ctl.pending}
